@@ -184,3 +184,55 @@ void h_uc_cshape(void)
 	__CPROVER_assert(0, "canary");
 #endif
 }
+
+/* ================================================================== BOUNDED: string-level helpers (C16) */
+/* every well-formed UTF-8 string of at most US_MAX bytes: uc_slen counts characters, uc_chr / uc_off
+ * convert between character index and byte position (mutually inverse), uc_sub cuts on character
+ * boundaries */
+#ifndef US_MAX
+#define US_MAX 5
+#endif
+void h_uc_strings_bounded(void)
+{
+	unsigned char s[US_MAX + 1];
+	int start[US_MAX + 2];
+	int i, L = nondet_int(), n = 0, need = 0;
+	__CPROVER_assume(0 <= L && L <= US_MAX);
+	for (i = 0; i < US_MAX; i++)
+		s[i] = nondet_uchar();
+	s[L] = 0;
+	/* well-formed: every lead byte is followed by exactly its continuation bytes; no NUL inside */
+	for (i = 0; i < US_MAX; i++) {
+		if (i >= L)
+			break;
+		__CPROVER_assume(s[i] != 0);
+		if (need) {
+			__CPROVER_assume(ISCONT(s[i]));
+			need--;
+		} else {
+			__CPROVER_assume(!ISCONT(s[i]) && ULEN(s[i]) >= 1);
+			start[n++] = i;
+			need = ULEN(s[i]) - 1;
+		}
+	}
+	__CPROVER_assume(need == 0);
+	start[n] = L;
+	char *p = (char *) s;
+	H_ASSERT(uc_slen(p) == n, "uc_slen: the number of characters");
+	int k = nondet_int();
+	__CPROVER_assume(0 <= k && k <= n);
+	H_ASSERT(uc_chr(p, k) == p + start[k], "uc_chr: the position of character k (the terminator for k == length)");
+	H_ASSERT(uc_off(p, start[k]) == k, "uc_off: the character index of a character's position (inverse of uc_chr)");
+	int b = nondet_int(), e = nondet_int();
+	__CPROVER_assume(0 <= b && b <= e && e <= n);
+	char *sub = uc_sub(p, b, e);
+	int len = start[e] - start[b];
+	H_ASSERT(sub[len] == 0, "uc_sub: as long as the characters b..e-1");
+	int j = nondet_int();
+	__CPROVER_assume(0 <= j && j < US_MAX);
+	if (j < len)
+		H_ASSERT(sub[j] == (char) s[start[b] + j], "uc_sub: exactly the bytes of characters b..e-1 (cut on character boundaries)");
+#ifdef CANARY
+	__CPROVER_assert(0, "canary");
+#endif
+}
